@@ -1459,6 +1459,45 @@ func c02PythonEscapeLast(ctx *Ctx, r *Report) {
 	}
 	r.Count("results of the python identifier formatters", n)
 	r.Floor("results of the python identifier formatters", 2)
+	// `self` is no keyword, but every generated method declares it as its first parameter and __init__ / the options
+	// list the fields / arguments after it: the escape that runs last must cover it too.
+	selfDefs := 0
+	for _, f := range p.Syntax {
+		ast.Inspect(f, func(m ast.Node) bool {
+			if lit, ok := m.(*ast.BasicLit); ok && lit.Kind == token.STRING && strings.Contains(lit.Value, "(self, ") {
+				selfDefs++
+			}
+			return true
+		})
+	}
+	if ts, err := loadTemplates(ctx, "python"); err == nil {
+		for _, name := range ts.names() {
+			walkTmpl(ts.trees[name].Root, func(m parse.Node) bool {
+				if t, ok := m.(*parse.TextNode); ok && strings.Contains(string(t.Text), "(self, ") {
+					selfDefs++
+				}
+				return true
+			})
+		}
+	}
+	r.Count("python method definitions listing generated parameters after self", selfDefs)
+	if selfDefs > 0 {
+		covered := false
+		for _, name := range []string{"escapeKeyword", "isReservedPythonKeyword"} {
+			fd, _ := ctx.DeclOf(ctx.LookupFunc("internal/jennies/python", name))
+			if fd == nil || fd.Body == nil {
+				continue
+			}
+			ast.Inspect(fd.Body, func(m ast.Node) bool {
+				if lit, ok := m.(*ast.BasicLit); ok && lit.Kind == token.STRING && lit.Value == `"self"` {
+					covered = true
+				}
+				return true
+			})
+		}
+		r.Check(covered, "skeleton/python-self-escaped", "python identifier escape covers self", token.NoPos, "the escape that runs last tests the name against \"self\"",
+			"the python jenny writes methods whose parameters are `self` followed by generated names, and neither escapeKeyword nor isReservedPythonKeyword knows `self`: a field or argument named self gives `def __init__(self, self: …)` — SyntaxError: duplicate argument — while the run succeeds")
+	}
 	c02EscapeLastIn(ctx, r, "internal/jennies/typescript", "isReservedTypescriptKeyword", []string{"formatIdentifier"})
 	c02EscapeLastIn(ctx, r, "internal/jennies/golang", "isReservedGoKeyword", []string{"formatArgName", "formatVarName"})
 	c02EscapeLastIn(ctx, r, "internal/jennies/java", "isReservedJavaKeyword", []string{"formatArgName", "formatFieldName"})
